@@ -15,6 +15,7 @@ Helper lemmas live in Lemmas/C01L*.lean.
 -/
 import NetaddrVerif.Lemmas.C01LText6
 import NetaddrVerif.Lemmas.C01LStrict
+import NetaddrVerif.Lemmas.C01LAton
 import NetaddrVerif.Lemmas.C03LInt
 namespace NV.C01
 open NV NV.Text4 NV.AddrParse NV.C01L
@@ -238,6 +239,28 @@ theorem zerofill (be : Backend) (t0 t1 t2 t3 : List Char) (n0 n1 n2 n3 : Nat)
 
 example : IsDigits "010".toList ∧ Nat.ofDigitChars 10 "010".toList 0 = 10 := ⟨⟨by decide, by decide⟩, by decide⟩
 
+/-- `valid_ipv4` / `valid_ipv6` say exactly whether the constructor with that explicit version
+    accepts the string (and raise AddrFormatError on the empty string, as documented) -/
+theorem valid_iff (be : Backend) (s : List Char) (fl : Nat) (hs : s ≠ []) (hns : s.contains '/' = false) :
+    (validStr4 be s fl = .ok true ↔ ∃ v, ipAddress be s (some 4) fl = .ok ⟨4, v⟩) ∧
+    (validStr6 be s = .ok true ↔ ∃ v, ipAddress be s (some 6) fl = .ok ⟨6, v⟩) ∧
+    validStr4 be [] fl = .error .addrFormat ∧ validStr6 be [] = .error .addrFormat := by
+  have hne : (s == []) = false := beq_eq_false_iff_ne.mpr hs
+  have hv4 : ¬ ((4 : Nat) ≠ 4 ∧ (4 : Nat) ≠ 6) := by decide
+  have hv6 : ¬ ((6 : Nat) ≠ 4 ∧ (6 : Nat) ≠ 6) := by decide
+  have h64 : ¬ ((6 : Nat) = 4) := by decide
+  refine ⟨?_, ?_, rfl, rfl⟩
+  · unfold validStr4 ipAddress
+    simp only [hne, Bool.false_eq_true, if_false, hv4, hns, strToInt, if_true]
+    cases strToInt4 be s fl with
+    | ok v => simp
+    | error e => simp
+  · unfold validStr6 ipAddress
+    simp only [hne, Bool.false_eq_true, if_false, hv6, hns, strToInt, h64, strToInt6]
+    cases inetPton6 be s with
+    | some v => simp
+    | none => simp
+
 /-- PARTIAL.  Full statement aimed at (DESIGN.md C01, `strict6_iff`):
     `inetPton6 be s = some v ↔ Rfc4291 s v`, where `Rfc4291` is an independent decidable grammar
     predicate (1-4 hex digits per group, at most one "::" standing for ≥ 1 group, optional strict
@@ -252,16 +275,135 @@ theorem strict6_iff_partial (be : Backend) (d : Dialect) (v : Nat) (hv : v < 2 ^
     inetPton6 be (intToStr6 be d v) = some v ∧ inetPton6 .fallback (intToStr6 be d v) = inetPton6 .platform (intToStr6 be d v) :=
   ⟨text6_parse be d v hv, fb_pton6_eq _⟩
 
-/-- PARTIAL.  Full statement aimed at (DESIGN.md C01, `aton_shorthand`): for every BSD
-    shorthand — 1 to 4 parts, each a C literal in decimal / octal (leading 0) / hex (0x), non-last
-    parts ≤ 255, the last part filling the remaining bytes — `aton s = some (combine parts)`, and
-    range rejection (`1.2.3.256`, `1.2.65536`, `4294967296`).
-    Proved here: the four-part decimal case on every canonical dotted quad (what `int_to_str`
-    prints), and that no string containing ':' after hex digits is accepted (`C01L.aton_colon`).
-    Missing: the 1-3 part, octal and hex cases as theorems; they are tied to glibc by the
-    platform op `aton` (≈ 1.4 k structured strings per quick run, 0 mismatches) and the oracle's
-    independent `ref_aton`. -/
-theorem aton_shorthand_partial (v : Nat) (hv : v < 2 ^ 32) : Text4.aton (ntoa v) = some v := aton_ntoa v hv
+theorem atonLoop_end_big (f : Nat) (lit : List Char) (val : Nat) (h : IsCLit lit val) (hv : val > 4294967295)
+    (parts : List Nat) : Text4.atonLoop (f + 1) lit parts = none := by
+  obtain ⟨c, tl, hs, hc⟩ := lit_head lit val h []
+  have hst := strtoul_lit lit val h [] (Or.inl rfl)
+  rw [List.append_nil] at hs hst
+  rw [hs] at hst ⊢
+  simp only [Text4.atonLoop, hc, hst]
+  simp [hv]
+
+theorem no_nul_join (ls : List (List Char)) (h : ∀ l ∈ ls, l.any (fun c => c.toNat == 0) = false) :
+    (['.'].intercalate ls).any (fun c => c.toNat == 0) = false := by
+  apply Bool.eq_false_iff.mpr
+  intro hany
+  obtain ⟨c, hc, hz⟩ := List.any_eq_true.mp hany
+  rcases mem_intercalate '.' ls c hc with e | ⟨l, hl, hcl⟩
+  · subst e; revert hz; decide
+  · have := h l hl
+    have h2 : l.any (fun c => c.toNat == 0) = true := List.any_eq_true.mpr ⟨c, hcl, hz⟩
+    rw [this] at h2; cases h2
+
+/-- **BSD shorthand (default mode).**  With `l0..l3` C literals (decimal without leading zero,
+    octal with leading 0, hex with 0x/0X) of values `a b c d`, the modelled `inet_aton` reads
+    1, 2, 3 and 4 dot-separated parts with the conventional values — non-last parts are bytes,
+    the last part fills the remaining 32 / 24 / 16 / 8 bits — and refuses a last part beyond its
+    range and a non-last part beyond 255. -/
+theorem aton_shorthand (l0 l1 l2 l3 : List Char) (a b c d : Nat)
+    (h0 : IsCLit l0 a) (h1 : IsCLit l1 b) (h2 : IsCLit l2 c) (h3 : IsCLit l3 d) :
+    (a ≤ 0xffffffff → Text4.aton l0 = some a) ∧
+    (a > 0xffffffff → Text4.aton l0 = none) ∧
+    (a ≤ 255 → b ≤ 0xffffff → Text4.aton (l0 ++ '.' :: l1) = some (a * 16777216 + b)) ∧
+    (a ≤ 255 → b > 0xffffff → Text4.aton (l0 ++ '.' :: l1) = none) ∧
+    (a ≤ 255 → b ≤ 255 → c ≤ 0xffff → Text4.aton (l0 ++ '.' :: (l1 ++ '.' :: l2)) = some (a * 16777216 + b * 65536 + c)) ∧
+    (a ≤ 255 → b ≤ 255 → c > 0xffff → Text4.aton (l0 ++ '.' :: (l1 ++ '.' :: l2)) = none) ∧
+    (a ≤ 255 → b ≤ 255 → c ≤ 255 → d ≤ 255 →
+      Text4.aton (l0 ++ '.' :: (l1 ++ '.' :: (l2 ++ '.' :: l3))) = some (a * 16777216 + b * 65536 + c * 256 + d)) ∧
+    (a ≤ 255 → b ≤ 255 → c ≤ 255 → d > 255 → Text4.aton (l0 ++ '.' :: (l1 ++ '.' :: (l2 ++ '.' :: l3))) = none) ∧
+    (a > 255 → ∀ r, Text4.aton (l0 ++ '.' :: r) = none) := by
+  have n0 := lit_no_nul l0 a h0
+  have n1 := lit_no_nul l1 b h1
+  have n2 := lit_no_nul l2 c h2
+  have n3 := lit_no_nul l3 d h3
+  have nul1 : l0.any (fun c => c.toNat == 0) = false := n0
+  have nul2 : (l0 ++ '.' :: l1).any (fun c => c.toNat == 0) = false := by
+    have := no_nul_join [l0, l1] (by intro l hl; simp at hl; rcases hl with e | e <;> subst e <;> assumption)
+    simpa [List.intercalate] using this
+  have nul3 : (l0 ++ '.' :: (l1 ++ '.' :: l2)).any (fun c => c.toNat == 0) = false := by
+    have := no_nul_join [l0, l1, l2] (by intro l hl; simp at hl; rcases hl with e | e | e <;> subst e <;> assumption)
+    simpa [List.intercalate] using this
+  have nul4 : (l0 ++ '.' :: (l1 ++ '.' :: (l2 ++ '.' :: l3))).any (fun c => c.toNat == 0) = false := by
+    have := no_nul_join [l0, l1, l2, l3] (by intro l hl; simp at hl; rcases hl with e | e | e | e <;> subst e <;> assumption)
+    simpa [List.intercalate] using this
+  refine ⟨?_, ?_, ?_, ?_, ?_, ?_, ?_, ?_, ?_⟩
+  · intro ha
+    unfold Text4.aton
+    rw [nul1]; simp only [Bool.false_eq_true, if_false]
+    rw [atonLoop_end 3 l0 a h0 ha []]
+    have : ¬ (a > 4294967295) := by omega
+    simp [this]
+  · intro ha
+    unfold Text4.aton
+    rw [nul1]; simp only [Bool.false_eq_true, if_false]
+    rw [atonLoop_end_big 3 l0 a h0 ha []]
+  · intro ha hb
+    unfold Text4.aton
+    rw [nul2]; simp only [Bool.false_eq_true, if_false]
+    rw [atonLoop_part 3 l0 a h0 ha l1 [] (by simp), atonLoop_end 2 l1 b h1 (by omega) _]
+    have : ¬ (b > 16777215) := by omega
+    simp only [List.nil_append, List.length_cons, List.length_nil, this, if_false]
+    rw [or_low a b 24 (by omega)]
+  · intro ha hb
+    unfold Text4.aton
+    rw [nul2]; simp only [Bool.false_eq_true, if_false]
+    rw [atonLoop_part 3 l0 a h0 ha l1 [] (by simp)]
+    by_cases hb2 : b ≤ 4294967295
+    · rw [atonLoop_end 2 l1 b h1 hb2 _]
+      have : b > 16777215 := hb
+      simp [this]
+    · rw [atonLoop_end_big 2 l1 b h1 (by omega) _]
+  · intro ha hb hc
+    unfold Text4.aton
+    rw [nul3]; simp only [Bool.false_eq_true, if_false]
+    rw [atonLoop_part 3 l0 a h0 ha _ [] (by simp), atonLoop_part 2 l1 b h1 hb l2 _ (by simp),
+      atonLoop_end 1 l2 c h2 (by omega) _]
+    have : ¬ (c > 65535) := by omega
+    simp only [List.nil_append, List.cons_append, List.length_cons, List.length_nil, this, if_false]
+    have e1 : a <<< 24 ||| b <<< 16 = (a * 256 + b) <<< 16 := by
+      have : a <<< 24 = (a <<< 8) <<< 16 := by rw [← Nat.shiftLeft_add]
+      rw [this, ← Nat.shiftLeft_or_distrib, ← Nat.shiftLeft_add_eq_or_of_lt (by omega : b < 2 ^ 8)]
+      simp [Nat.shiftLeft_eq]
+    have e2 : (a * 256 + b) * 2 ^ 16 + c = a * 16777216 + b * 65536 + c := by
+      simp only [Nat.reducePow]; omega
+    rw [e1, or_low _ c 16 (by omega), e2]
+  · intro ha hb hc
+    unfold Text4.aton
+    rw [nul3]; simp only [Bool.false_eq_true, if_false]
+    rw [atonLoop_part 3 l0 a h0 ha _ [] (by simp), atonLoop_part 2 l1 b h1 hb l2 _ (by simp)]
+    by_cases hc2 : c ≤ 4294967295
+    · rw [atonLoop_end 1 l2 c h2 hc2 _]
+      have : c > 65535 := hc
+      simp [this]
+    · rw [atonLoop_end_big 1 l2 c h2 (by omega) _]
+  · intro ha hb hc hd
+    unfold Text4.aton
+    rw [nul4]; simp only [Bool.false_eq_true, if_false]
+    rw [atonLoop_part 3 l0 a h0 ha _ [] (by simp), atonLoop_part 2 l1 b h1 hb _ _ (by simp),
+      atonLoop_part 1 l2 c h2 hc l3 _ (by simp), atonLoop_end 0 l3 d h3 (by omega) _]
+    have : ¬ (d > 255) := by omega
+    simp only [List.nil_append, List.cons_append, List.length_cons, List.length_nil, this, if_false]
+    rw [or_bytes a b c d (by omega) (by omega) (by omega)]
+  · intro ha hb hc hd
+    unfold Text4.aton
+    rw [nul4]; simp only [Bool.false_eq_true, if_false]
+    rw [atonLoop_part 3 l0 a h0 ha _ [] (by simp), atonLoop_part 2 l1 b h1 hb _ _ (by simp),
+      atonLoop_part 1 l2 c h2 hc l3 _ (by simp)]
+    by_cases hd2 : d ≤ 4294967295
+    · rw [atonLoop_end 0 l3 d h3 hd2 _]
+      have : d > 255 := hd
+      simp [this]
+    · rw [atonLoop_end_big 0 l3 d h3 (by omega) _]
+  · intro ha r
+    unfold Text4.aton
+    split
+    · rfl
+    · rw [atonLoop_part_big 3 l0 a h0 ha r []]
+
+example : IsCLit "0x7f".toList 127 ∧ IsCLit "010".toList 8 ∧ IsCLit "65535".toList 65535 :=
+  ⟨IsCLit.hex 'x' "7f".toList (Or.inl rfl) (by decide) (by decide),
+   IsCLit.oct "10".toList (by decide),
+   IsCLit.dec '6' "5535".toList (by decide) (by decide) (by decide)⟩
 
 example : Text4.aton "0x7f.1".toList = some 0x7f000001 := by decide
 
